@@ -14,7 +14,7 @@ import scen
 PROP = "C07"
 POOL = ["ed1", "ed2", "ed3", "ed4", "ed5", "ed6", "edp1", "edp2", "ec-b", "ec-c"]
 DISSENT = ["none", "none", "byproducts_only", "command_only", "path", "digest", "alg", "extra", "missing", "second_alg",
-           "digest_truncated", "digest_extended", "digest_last_bit"]
+           "digest_truncated", "digest_extended", "digest_last_bit", "path_respelled", "extra_respelled_entry"]
 
 
 def judge(case, obs, res):
@@ -44,6 +44,14 @@ def dissent_doc(doc, kind, where, rng):
     elif kind == "digest":
         p = rng.choice(paths)
         tgt[p] = scen.digest(0xEE)
+    elif kind == "path_respelled":
+        # the same location under a lexically different path: a different recorded path
+        p = rng.choice(paths)
+        tgt[rng.choice(scen.path_respellings(p))] = tgt.pop(p)
+    elif kind == "extra_respelled_entry":
+        # an additional entry whose path is another spelling of an existing one, with another digest
+        p = rng.choice(paths)
+        tgt[rng.choice(scen.path_respellings(p))] = scen.digest(0x5A)
     elif kind == "digest_truncated":
         p = rng.choice(paths)
         a, h = list(tgt[p].items())[0]
@@ -154,5 +162,5 @@ def main(ctx):
         assumptions=["validity of all links by construction"],
         required=["positive_control_accepted", "dissent:path", "dissent:digest", "dissent:alg", "dissent:extra",
                   "dissent:missing", "where:materials", "where:products", "rank:smallest", "rank:largest", "rank:middle",
-                  "surplus_links", "threshold:2", "threshold:3", "threshold:4", "dissent:byproducts_only", "dissent:digest_truncated"],
+                  "surplus_links", "threshold:2", "threshold:3", "threshold:4", "dissent:byproducts_only", "dissent:digest_truncated", "dissent:path_respelled"],
         min_evals=1000)
